@@ -87,6 +87,13 @@ func cloneModels(m definitions.Models) definitions.Models {
 	return out
 }
 
+func cloneFlat(f []definitions.ControllerMetadata) []definitions.ControllerMetadata {
+	b, _ := json.Marshal(f)
+	var out []definitions.ControllerMetadata
+	_ = json.Unmarshal(b, &out)
+	return out
+}
+
 // RunInProcess changes the working directory to dir (globs and package loading are relative
 // to it), so it must not run concurrently with another call in the same process.
 func RunInProcess(dir string, want Want) *Result {
@@ -129,7 +136,9 @@ func RunInProcess(dir string, want Want) *Result {
 			cfg := res.Config.OpenAPIGeneratorConfig
 			cfg.OpenAPI = v
 			models := cloneModels(res.Meta.Models)
-			out, err := swagen.GenerateSpec(&cfg, res.Meta.Flat, &models, res.Meta.PlainErrorPresent)
+			// the emitters rewrite parts of the metadata they are given (e.g. the error type name of a route);
+			// every emission gets its own copy so that one artefact cannot influence the next
+			out, err := swagen.GenerateSpec(&cfg, cloneFlat(res.Meta.Flat), &models, res.Meta.PlainErrorPresent)
 			if err != nil {
 				res.SpecErr[v] = err
 			} else {
